@@ -563,9 +563,61 @@ pub fn run(ctx: &Ctx) -> (Spec, Report) {
             rep.sample(json!({"language": lname, "files": r.files.iter().map(|f| f.path.clone()).collect::<Vec<_>>(), "outputs": r.outputs.keys().collect::<Vec<_>>(), "first_source": r.files.first().map(|f| f.source.clone())}));
         }
     }
+    // the crate of a file is the directory above `src` however the input directory is spelled on the command line:
+    // from the workspace, from inside the crate (`src`, `./src`, `.`), from inside `src`, through `..`, absolute
+    {
+        let root = ctx.scratch("path-shapes");
+        for d in ["ws/my-crate/src/sub", "ws/other/src"] {
+            let _ = std::fs::create_dir_all(root.join(d));
+        }
+        std::fs::write(root.join("ws/my-crate/src/lib.rs"), "#[typeshare]\npub struct QshapeOne { pub a: u8 }\n").unwrap();
+        std::fs::write(root.join("ws/my-crate/src/sub/m.rs"), "#[typeshare]\npub enum QshapeTwo { A, B }\n").unwrap();
+        std::fs::write(root.join("ws/other/src/lib.rs"), "#[typeshare]\npub struct QshapeOther { pub a: u8 }\n").unwrap();
+        let abs = root.join("ws/my-crate/src").to_string_lossy().into_owned();
+        let shapes: Vec<(&str, String, Vec<&str>)> = vec![
+            ("ws", "my-crate".into(), vec!["my-crate"]),
+            ("ws", "my-crate/src/".into(), vec!["my-crate"]),
+            ("ws", ".".into(), vec!["my-crate", "other"]),
+            ("ws", "./other/../my-crate".into(), vec!["my-crate"]),
+            ("ws", abs.clone(), vec!["my-crate"]),
+            ("ws/my-crate", "src".into(), vec!["my-crate"]),
+            ("ws/my-crate", "./src".into(), vec!["my-crate"]),
+            ("ws/my-crate", ".".into(), vec!["my-crate"]),
+            ("ws/my-crate", "src/sub".into(), vec!["my-crate"]),
+            ("ws/my-crate/src", ".".into(), vec!["my-crate"]),
+            ("ws/my-crate/src", "..".into(), vec!["my-crate"]),
+            ("ws/my-crate/src/sub", "../..".into(), vec!["my-crate"]),
+            ("ws/other", "../my-crate/src".into(), vec!["my-crate"]),
+        ];
+        let mut k = 0;
+        for (cwd, dir, crates) in &shapes {
+            for &lang in langs.iter() {
+                k += 1;
+                let cfg = LangCfg::basic(lang);
+                let out = root.join(format!("out{k}"));
+                let args = cli_args(lang, &cfg, true, &out, &[dir.as_str()]);
+                let o = run_bin(BinRun { cli: &cli, args: args.clone(), env: vec![], cwd: &root.join(cwd), strace: None, wall_limit: Duration::from_secs(30) });
+                rep.eval(1);
+                rep.count("cli_runs", 1);
+                rep.count("path_shape_runs", 1);
+                let shape = if dir.starts_with('/') { "absolute".to_string() } else { format!("{}:{dir}", cwd.trim_start_matches("ws").trim_start_matches('/')) };
+                rep.cell(format!("path-shape|{shape}|{}", lang.name()));
+                if !o.ok() {
+                    rep.inconclusive("cli-run-failed (reported by C07)", json!({"language": lang.name(), "args": args, "stderr": o.stderr.chars().take(300).collect::<String>()}));
+                    continue;
+                }
+                let actual: BTreeSet<String> = read_dir_files(&out).into_keys().filter(|k| k != "Codable.swift").collect();
+                let expected: BTreeSet<String> = crates.iter().map(|c| expected_file_name(lang, c)).collect();
+                if actual != expected {
+                    rep.violate(format!("C14|{}|file-set|path-shape", lang.name()), format!("input directory `{dir}` given from `{cwd}`: output files {actual:?}, expected {expected:?}"), json!({"cwd": cwd, "args": args, "outputs": actual, "stderr": o.stderr.chars().take(400).collect::<String>()}));
+                }
+            }
+        }
+        let _ = std::fs::remove_dir_all(&root);
+    }
     let spec = Spec {
         level: "exploration",
-        rule: format!("{n} generated workspaces of 1-5 crates (names drawn from 10, with dashes and underscores, half of them beginning with the name of a third-party crate typeshare ignores - time-utils, http_types, stdx, ring-buffer, synapse; a third of them with an extra `<first crate>.v2` directory, whose name differs from an existing crate only behind a dot), 1-3 files per crate at depth 1-4 under src, 1-3 types per file, references to earlier types in the same file, the same crate (crate:: / super:: / use self:: / use crate::) and other crates (use single / grouped / nested / glob, qualified and deep qualified paths), a fifth of the types generic and referred to with a type argument that is itself a reference in any of those forms (`other::Page<third::models::deep::Item>`), wrapped in nothing / Vec / Option / HashMap / Box<[..; 2]>, a sixth of the types serde-renamed, optional prefix and a foreign type mapping; real binary with --output-folder and, as twin, --output-file; TypeScript, Kotlin, Swift, Python (Scala and Go have no multi-file support); oracle: file set and names from the crate rule, every type in exactly its crate's file, union of definitions equals the single-file run, TS/Kotlin imports resolve to the defining file and name only defined types; distinct = (language, crate count, prefix?) and (language, reference form, renamed?)"),
+        rule: format!("{n} generated workspaces of 1-5 crates (names drawn from 10, with dashes and underscores, half of them beginning with the name of a third-party crate typeshare ignores - time-utils, http_types, stdx, ring-buffer, synapse; a third of them with an extra `<first crate>.v2` directory, whose name differs from an existing crate only behind a dot), 1-3 files per crate at depth 1-4 under src, 1-3 types per file, references to earlier types in the same file, the same crate (crate:: / super:: / use self:: / use crate::) and other crates (use single / grouped / nested / glob, qualified and deep qualified paths), a fifth of the types generic and referred to with a type argument that is itself a reference in any of those forms (`other::Page<third::models::deep::Item>`), wrapped in nothing / Vec / Option / HashMap / Box<[..; 2]>, a sixth of the types serde-renamed, optional prefix and a foreign type mapping; real binary with --output-folder and, as twin, --output-file; TypeScript, Kotlin, Swift, Python (Scala and Go have no multi-file support); oracle: file set and names from the crate rule, every type in exactly its crate's file, union of definitions equals the single-file run, TS/Kotlin imports resolve to the defining file and name only defined types; plus one crate reached through 13 spellings of its path (from the workspace, from inside the crate, from inside src, through `..`, absolute) whose output file must be named after the directory above src; distinct = (language, crate count, prefix?) and (language, reference form, renamed?)"),
         assumptions: vec![
             "`use .. as ..` renames are outside the stated domain and not generated".into(),
             "extra imports (a glob brings in every type of the crate) are allowed as long as the module defines them".into(),
